@@ -34,11 +34,10 @@ def main():
     except BaseException:
         traceback.print_exc()
         print('HARNESS-ERROR: uncaught exception in harness')
-        try:
-            H.pool.shutdown(wait=False, cancel_futures=True)
-        except Exception:
-            pass
+        H.kill_pool()
+        sys.stdout.flush()
         os._exit(EXIT_HARNESS_ERROR)
+    H.kill_pool()
     sys.stdout.flush()
     os._exit(rc)
 
